@@ -71,6 +71,35 @@ macro_rules! vcheck { ($c:expr, $l:expr) => {{ let c: bool = $c; let _ = crate::
 macro_rules! vcover { ($c:expr, $l:expr) => { if $c { println!("COVERED {}", $l); } }; }
 
 pub mod coll { pub use std::collections::{HashMap, HashSet}; }
+pub mod conn;
+/// native counterpart of the Kani crate's `env`: the real handler answers
+pub mod env {
+    use bytes::Bytes;
+    pub fn collect_get_keys(b: &[u8]) -> (Vec<Bytes>, usize, usize) { crate::conn::collect_get_keys(b) }
+    pub fn collect_set_pairs(b: &[u8]) -> (Vec<(Bytes, Bytes)>, usize, usize) { crate::conn::collect_set_pairs(b) }
+    /// natively the fast path is only reachable through run(): one frame in, observe the reply
+    /// Ok((key, consumed)) when the server answered exactly one reply, Err(1) when it stayed silent
+    pub fn fast_get_parse(b: &[u8]) -> (Result<(Bytes, usize), u8>, usize) {
+        let o = crate::conn::drive(&[b.to_vec()], redis_sim::production::ConnectionConfig::default());
+        let n = crate::conn::count_replies(&o.replies);
+        if n == 0 { (Err(1), b.len()) } else if o.replies.starts_with(b"-") { (Err(2), 0) } else { (Ok((Bytes::new(), usize::MAX)), 0) }
+    }
+    pub fn fast_set_parse(b: &[u8]) -> (Result<(Bytes, Bytes, usize), u8>, usize) {
+        let o = crate::conn::drive(&[b.to_vec()], redis_sim::production::ConnectionConfig::default());
+        let n = crate::conn::count_replies(&o.replies);
+        if n == 0 { (Err(1), b.len()) } else if o.replies.starts_with(b"-") { (Err(2), 0) } else { (Ok((Bytes::new(), Bytes::new(), usize::MAX)), 0) }
+    }
+    /// natively: the buffer (the GET frames followed by one padded PING, so that run() enters its batching
+    /// branch) goes through the real run(); answered <=> one reply per GET the collector consumed, plus the PING
+    pub fn consumed_gets_answered(buffer: &[u8], count: usize, threshold: usize) -> bool {
+        let mut cfg = redis_sim::production::ConnectionConfig::default();
+        cfg.batch_threshold = threshold;
+        let mut g = buffer.to_vec();
+        g.extend_from_slice(b"*2\r\n$4\r\nPING\r\n$64\r\naaaaaaaaaaaaaaaaaaaaaaaaaaaaaaaaaaaaaaaaaaaaaaaaaaaaaaaaaaaaaaaa\r\n");
+        let o = crate::conn::drive(&[g], cfg);
+        crate::conn::count_replies(&o.replies) >= count + 1
+    }
+}
 
 macro_rules! registry {
     ($( $name:ident, $prop:literal, $tier:ident, $unwind:literal, $kind:ident, $cap:literal => $body:expr; )*) => {
@@ -88,11 +117,28 @@ pub mod scenarios;
 
 fn main() {
     let a: Vec<String> = std::env::args().collect();
-    if a.len() < 3 { eprintln!("usage: vreplay <harness> <hex,hex,...>"); std::process::exit(2); }
+    if a.len() >= 3 && a[1] == "--collect" { debug_collect(&a[2]); return; }
+    if a.len() >= 3 && a[1] == "--conn" { debug_conn(&a[2], a.get(3).and_then(|t| t.parse().ok()).unwrap_or(2)); return; }
+    if a.len() < 3 { eprintln!("usage: vreplay <harness> <hex,hex,...> | vreplay --conn <bytes with \\r\\n escapes> [batch_threshold]"); std::process::exit(2); }
     let vals: Vec<Vec<u8>> = a[2].split(',').filter(|s| !s.is_empty()).map(|h| {
         (0..h.len() / 2).map(|i| u8::from_str_radix(&h[2 * i..2 * i + 2], 16).unwrap()).collect()
     }).collect();
     vs::load(vals);
     if !scenarios::dispatch(&a[1]) { eprintln!("unknown harness {}", a[1]); std::process::exit(2); }
     println!("REPLAY-DONE");
+}
+
+#[allow(dead_code)]
+pub fn debug_conn(input: &str, threshold: usize) {
+    let mut cfg = redis_sim::production::ConnectionConfig::default();
+    cfg.batch_threshold = threshold;
+    let bytes = input.replace("\\r", "\r").replace("\\n", "\n").into_bytes();
+    let o = conn::drive(&[bytes], cfg);
+    println!("replies={:?} closed={} n={}", String::from_utf8_lossy(&o.replies), o.closed, conn::count_replies(&o.replies));
+}
+#[allow(dead_code)]
+pub fn debug_collect(input: &str) {
+    let bytes = input.replace("\\r", "\r").replace("\\n", "\n").into_bytes();
+    let (k, c, left) = conn::collect_get_keys(&bytes);
+    println!("collect_get_keys: keys={:?} count={} left={} of {}", k, c, left, bytes.len());
 }
